@@ -225,6 +225,16 @@ func (x *extractor) genExprs() {
 			}
 		}
 	}
+	// the helper through which ExpireSessions reads the configured expiration (so that ConfigMu is released
+	// before sessionsMu is taken)
+	if fd := findFunc(irc, "IRCServer", "sessionExpiration"); fd != nil {
+		ast.Inspect(fd.Body, func(n ast.Node) bool {
+			if r, ok := n.(*ast.ReturnStmt); ok && len(r.Results) == 1 {
+				put("expire.timeout.helper", exprString(irc.Fset, r.Results[0]))
+			}
+			return true
+		})
+	}
 	// message-of-death handling in FSM.applyProto (package main)
 	if mainp := x.pkg(""); mainp != nil {
 		if fd := findFunc(mainp, "FSM", "applyProto"); fd != nil {
